@@ -212,31 +212,31 @@ From AQ Require Import model.RangeSet model.StreamSpec proofs.RangeSetP proofs.S
 
 (* what TLS processing reads and writes of the connection *)
 Definition tlsproj (c : conn) :=
-  (q_client c, q_cfg c, q_tls c, q_rbuf c, q_rbuf_epoch c, q_orcs c, q_log c, q_hs_out c).
+  (q_client c, q_cfg c, q_tls c, q_rbuf c, q_rbuf_epoch c, q_orcs c, q_log c).
 
 Lemma tlsproj_eq : forall c c', tlsproj c = tlsproj c' ->
   q_client c = q_client c' /\ q_cfg c = q_cfg c' /\ q_tls c = q_tls c' /\ q_rbuf c = q_rbuf c' /\
-  q_rbuf_epoch c = q_rbuf_epoch c' /\ q_orcs c = q_orcs c' /\ q_log c = q_log c' /\ q_hs_out c = q_hs_out c'.
+  q_rbuf_epoch c = q_rbuf_epoch c' /\ q_orcs c = q_orcs c' /\ q_log c = q_log c'.
 Proof. intros c c' H. unfold tlsproj in H. inversion H. repeat split; assumption. Qed.
 
 Lemma tlsproj_install : forall c ks, tlsproj (install c ks) = tlsproj c.
 Proof.
-  intros c ks. destruct (install_fields ks c) as (F1 & F2 & F3 & F4 & _ & _ & F7 & F8 & F9 & _ & _ & _ & _ & F14).
-  unfold tlsproj. rewrite F1, F2, F3, F4, F7, F8, F9, F14. reflexivity.
+  intros c ks. destruct (install_fields ks c) as (F1 & F2 & F3 & F4 & _ & _ & F7 & F8 & F9 & _).
+  unfold tlsproj. rewrite F1, F2, F3, F4, F7, F8, F9. reflexivity.
 Qed.
 
 Lemma tlsproj_forget : forall c c', tlsproj c = tlsproj c' -> tlsproj (forget c) = tlsproj (forget c').
 Proof.
-  intros c c' H. destruct (tlsproj_eq _ _ H) as (A1 & A2 & A3 & A4 & A5 & A6 & A7 & A8).
-  unfold tlsproj, forget. cbn. rewrite A1, A2, A3, A6, A7, A8. reflexivity.
+  intros c c' H. destruct (tlsproj_eq _ _ H) as (A1 & A2 & A3 & A4 & A5 & A6 & A7).
+  unfold tlsproj, forget. cbn. rewrite A1, A2, A3, A6, A7. reflexivity.
 Qed.
 
 Lemma dispatch_one_cong : forall e c c' t rest, tlsproj c = tlsproj c' ->
   fst (dispatch_one e c t rest) = fst (dispatch_one e c' t rest) /\
   tlsproj (snd (dispatch_one e c t rest)) = tlsproj (snd (dispatch_one e c' t rest)).
 Proof.
-  intros e c c' t rest H. destruct (tlsproj_eq _ _ H) as (A1 & A2 & A3 & A4 & A5 & A6 & A7 & A8).
-  unfold dispatch_one. rewrite <- A1, <- A2, <- A3, <- A5, <- A6, <- A7, <- A8.
+  intros e c c' t rest H. destruct (tlsproj_eq _ _ H) as (A1 & A2 & A3 & A4 & A5 & A6 & A7).
+  unfold dispatch_one. rewrite <- A1, <- A2, <- A3, <- A5, <- A6, <- A7.
   destruct (step (q_cfg c) (q_tls c) _) as [[o s'] ks]. cbn [fst snd]. split; [reflexivity|].
   rewrite !tlsproj_install. reflexivity.
 Qed.
@@ -246,7 +246,7 @@ Lemma tls_loop_cong : forall p e fuel c c', tlsproj c = tlsproj c' ->
   tlsproj (snd (tls_loop fuel p e c)) = tlsproj (snd (tls_loop fuel p e c')).
 Proof.
   intros p e fuel. induction fuel as [|fuel IH]; intros c c' H; cbn [tls_loop]; [split; [reflexivity|exact H]|].
-  destruct (tlsproj_eq _ _ H) as (A1 & A2 & A3 & A4 & A5 & A6 & A7 & A8).
+  destruct (tlsproj_eq _ _ H) as (A1 & A2 & A3 & A4 & A5 & A6 & A7).
   rewrite <- A4, <- A3.
   destruct (q_rbuf c) as [|t [|l1 [|l2 [|l3 tl]]]]; try (split; [reflexivity|exact H]).
   destruct (_ >? MAX_HANDSHAKE_MESSAGE_SIZE); [split; [reflexivity|exact H]|].
@@ -261,15 +261,15 @@ Lemma tls_feed_cong : forall p e c c' d, tlsproj c = tlsproj c' ->
   fst (tls_feed p e c d) = fst (tls_feed p e c' d) /\
   tlsproj (snd (tls_feed p e c d)) = tlsproj (snd (tls_feed p e c' d)).
 Proof.
-  intros p e c c' d H. destruct (tlsproj_eq _ _ H) as (A1 & A2 & A3 & A4 & A5 & A6 & A7 & A8).
+  intros p e c c' d H. destruct (tlsproj_eq _ _ H) as (A1 & A2 & A3 & A4 & A5 & A6 & A7).
   unfold tls_feed. rewrite <- A3, <- A4, <- A5, <- A2.
   assert (L : forall b x, fst (tls_loop (S (length b)) p e (set_rbuf c b x)) = fst (tls_loop (S (length b)) p e (set_rbuf c' b x)) /\
               tlsproj (snd (tls_loop (S (length b)) p e (set_rbuf c b x))) = tlsproj (snd (tls_loop (S (length b)) p e (set_rbuf c' b x)))).
-  { intros b x. apply tls_loop_cong. unfold tlsproj. cbn. rewrite A1, A2, A3, A6, A7, A8. reflexivity. }
+  { intros b x. apply tls_loop_cong. unfold tlsproj. cbn. rewrite A1, A2, A3, A6, A7. reflexivity. }
   destruct (s_state (q_tls c));
     try (destruct (p && _ && _ && _); [split; [reflexivity|exact H]|apply L]).
   destruct (client_send_hello (q_cfg c) (q_tls c)) as [[o s'] ks]. cbn [fst snd]. split; [reflexivity|].
-  rewrite !tlsproj_install. unfold tlsproj. cbn. rewrite A1, A6, A7, A8. reflexivity.
+  rewrite !tlsproj_install. unfold tlsproj. cbn. rewrite A1, A6, A7. reflexivity.
 Qed.
 
 (* TLS processing does not touch the CRYPTO streams *)
@@ -481,4 +481,231 @@ Proof.
   cbv zeta. split; [constructor|]. split; [reflexivity|]. split.
   - repeat constructor; unfold slice_of; cbn; repeat split; try lia; reflexivity.
   - split; vm_compute; reflexivity.
+Qed.
+
+(* ================= Part 3: the same bytes cut over several PACKETS (client, Handshake packets) ================ *)
+
+(* connections that neither TLS processing nor the CRYPTO stream receivers can tell apart *)
+Definition teq (c c' : conn) : Prop :=
+  tlsproj c = tlsproj c' /\ q_si c = q_si c' /\ q_sh c = q_sh c' /\ q_sa c = q_sa c'.
+
+Lemma teq_refl : forall c, teq c c. Proof. intros c. repeat split. Qed.
+Lemma teq_trans : forall a b c, teq a b -> teq b c -> teq a c.
+Proof. intros a b c (A1 & A2 & A3 & A4) (B1 & B2 & B3 & B4). repeat split; congruence. Qed.
+Lemma teq_sym : forall a b, teq a b -> teq b a.
+Proof. intros a b (A1 & A2 & A3 & A4). repeat split; congruence. Qed.
+
+Lemma teq_stream_of : forall c c' e, teq c c' -> stream_of c e = stream_of c' e.
+Proof. intros c c' e (_ & A & B & C). unfold stream_of. rewrite A, B, C. reflexivity. Qed.
+
+Lemma teq_set_stream : forall c c' e r, teq c c' -> teq (set_stream c e r) (set_stream c' e r).
+Proof.
+  intros c c' e r (T & A & B & C). destruct (tlsproj_eq _ _ T) as (A1 & A2 & A3 & A4 & A5 & A6 & A7).
+  unfold teq, tlsproj, set_stream. cbn. rewrite A1, A2, A3, A4, A5, A6, A7, A, B, C. repeat split.
+Qed.
+
+Lemma tls_feed_teq : forall p e c c' d, teq c c' ->
+  fst (tls_feed p e c d) = fst (tls_feed p e c' d) /\ teq (snd (tls_feed p e c d)) (snd (tls_feed p e c' d)).
+Proof.
+  intros p e c c' d T. destruct (tls_feed_cong p e c c' d (proj1 T)) as [F1 F2]. split; [exact F1|].
+  pose proof (tls_feed_streams p e c d) as S1. pose proof (tls_feed_streams p e c' d) as S2.
+  destruct T as (_ & A & B & C).
+  split; [exact F2|].
+  pose proof (S1 EP_INITIAL) as I1. pose proof (S2 EP_INITIAL) as I2.
+  pose proof (S1 EP_HANDSHAKE) as H1. pose proof (S2 EP_HANDSHAKE) as H2.
+  pose proof (S1 EP_ONE_RTT) as O1. pose proof (S2 EP_ONE_RTT) as O2.
+  unfold stream_of in *. cbn in I1, I2, H1, H2, O1, O2. repeat split; congruence.
+Qed.
+
+Lemma complete_check_teq : forall c, teq (complete_check c) c.
+Proof. intros c. unfold complete_check. destruct (_ && _); [|apply teq_refl]. destruct (q_client c); repeat split. Qed.
+
+Lemma crypto_frame_teq : forall p e c c' off d, teq c c' ->
+  fst (crypto_frame p e c off d) = fst (crypto_frame p e c' off d) /\
+  teq (snd (crypto_frame p e c off d)) (snd (crypto_frame p e c' off d)).
+Proof.
+  intros p e c c' off d T. unfold crypto_frame. rewrite <- (teq_stream_of c c' e T).
+  destruct (_ >? UINT_VAR_MAX); [split; [reflexivity|exact T]|].
+  destruct (_ >? MAX_PENDING_CRYPTO); [split; [reflexivity|exact T]|].
+  destruct (handle_frame (stream_of c e) off d false) as [o r'].
+  pose proof (teq_set_stream c c' e r' T) as T1.
+  destruct o; try (split; [reflexivity|exact T1]).
+  destruct (tls_feed_teq p e _ _ data T1) as [F1 F2].
+  destruct (tls_feed p e (set_stream c e r') data) as [tr c2]. destruct (tls_feed p e (set_stream c' e r') data) as [tr' c2'].
+  cbn [fst snd] in F1, F2. subst tr'.
+  destruct tr; cbn [fst snd]; (split; [reflexivity|]); try exact F2.
+  eapply teq_trans; [apply complete_check_teq|]. eapply teq_trans; [exact F2|]. apply teq_sym, complete_check_teq.
+Qed.
+
+Lemma frames_loop_teq : forall p e fs c c', teq c c' ->
+  fst (frames_loop p e c fs) = fst (frames_loop p e c' fs) /\ teq (snd (frames_loop p e c fs)) (snd (frames_loop p e c' fs)).
+Proof.
+  intros p e fs. induction fs as [|[off d] fs IH]; intros c c' T; cbn [frames_loop]; [split; [reflexivity|exact T]|].
+  destruct (crypto_frame_teq p e c c' off d T) as [F1 F2].
+  destruct (crypto_frame p e c off d) as [x c1]. destruct (crypto_frame p e c' off d) as [x' c1']. cbn [fst snd] in F1, F2. subst x'.
+  destruct x; [apply IH, F2| |]; split; [reflexivity|exact F2|reflexivity|exact F2].
+Qed.
+
+Lemma frames_loop_app : forall p e a b c,
+  frames_loop p e c (a ++ b) = match frames_loop p e c a with (FOk, c1) => frames_loop p e c1 b | x => x end.
+Proof.
+  intros p e a. induction a as [|[off d] a IH]; intros b c; cbn [app frames_loop]; [reflexivity|].
+  destruct (crypto_frame p e c off d) as [x c1]. destruct x; [apply IH|reflexivity|reflexivity].
+Qed.
+
+(* what CRYPTO processing never takes away: the close state, the role, a client's Handshake receive key *)
+Definition keeps (c c1 : conn) : Prop :=
+  q_closed c1 = q_closed c /\ q_client c1 = q_client c /\
+  (q_client c = true -> kget (q_rk c) EP_HANDSHAKE = true -> kget (q_rk c1) EP_HANDSHAKE = true).
+Lemma keeps_refl : forall c, keeps c c. Proof. intros c. repeat split; auto. Qed.
+Lemma keeps_trans : forall a b c, keeps a b -> keeps b c -> keeps a c.
+Proof.
+  intros a b c (A1 & A2 & A3) (B1 & B2 & B3). split; [congruence|]. split; [congruence|].
+  intros H K. apply B3; [congruence|]. apply A3; assumption.
+Qed.
+
+Lemma kget_kset_true : forall k e e', kget k e' = true -> kget (kset k e true) e' = true.
+Proof.
+  intros k e e'. unfold kget, kset, EP_INITIAL, EP_ZERO_RTT, EP_HANDSHAKE, EP_ONE_RTT.
+  repeat match goal with |- context [?a =? ?b] => destruct (Z.eqb_spec a b) end;
+    cbn [k_i k_z k_h k_a]; intros H; subst; first [exact H | reflexivity | exfalso; lia | discriminate].
+Qed.
+
+Lemma install_keeps : forall ks c, keeps c (install c ks).
+Proof.
+  induction ks as [|[d e] ks IH]; intros c; [apply keeps_refl|].
+  unfold install in *. cbn [fold_left]. eapply keeps_trans; [|apply IH].
+  unfold install1. destruct (d =? DIR_ENCRYPT); (split; [reflexivity|split; [reflexivity|]]); intros _ K; cbn [q_rk set_keys]; [exact K|apply kget_kset_true, K].
+Qed.
+
+Lemma dispatch_one_keeps : forall e c t rest, keeps c (snd (dispatch_one e c t rest)).
+Proof.
+  intros e c t rest. unfold dispatch_one. destruct (step (q_cfg c) (q_tls c) _) as [[o s'] ks]. cbn [snd].
+  eapply keeps_trans; [|apply install_keeps]. repeat split; auto.
+Qed.
+
+Lemma tls_loop_keeps : forall p e fuel c, keeps c (snd (tls_loop fuel p e c)).
+Proof.
+  intros p e fuel. induction fuel as [|fuel IH]; intros c; cbn [tls_loop]; [apply keeps_refl|].
+  destruct (q_rbuf c) as [|t [|l1 [|l2 [|l3 tl]]]]; try apply keeps_refl.
+  destruct (_ >? MAX_HANDSHAKE_MESSAGE_SIZE); [apply keeps_refl|].
+  destruct (_ <? _); [apply keeps_refl|].
+  destruct (p && _); [apply keeps_refl|].
+  pose proof (dispatch_one_keeps e c t (zdrop (4 + (l1 * 65536 + l2 * 256 + l3)) (t :: l1 :: l2 :: l3 :: tl))) as D.
+  destruct (dispatch_one e c t _) as [o c1]. cbn [snd] in D.
+  destruct o; cbn [snd]; [eapply keeps_trans; [exact D|apply IH]|exact D|exact D].
+Qed.
+
+Lemma tls_feed_keeps : forall p e c d, keeps c (snd (tls_feed p e c d)).
+Proof.
+  intros p e c d. unfold tls_feed.
+  assert (L : forall b x, keeps c (snd (tls_loop (S (length b)) p e (set_rbuf c b x)))).
+  { intros b x. eapply keeps_trans; [|apply tls_loop_keeps]. repeat split; auto. }
+  destruct (s_state (q_tls c)); try (destruct (p && _ && _ && _); [apply keeps_refl|apply L]).
+  destruct (client_send_hello (q_cfg c) (q_tls c)) as [[o s'] ks]. cbn [snd].
+  eapply keeps_trans; [|apply install_keeps]. repeat split; auto.
+Qed.
+
+Lemma complete_check_keeps : forall c, keeps c (complete_check c).
+Proof.
+  intros c. unfold complete_check. destruct (_ && _); [|apply keeps_refl].
+  destruct (q_client c) eqn:E; (split; [reflexivity|split; [reflexivity|]]); intros H K; cbn; [exact K|congruence].
+Qed.
+
+Lemma crypto_frame_keeps : forall p e c off d, keeps c (snd (crypto_frame p e c off d)).
+Proof.
+  intros p e c off d. unfold crypto_frame.
+  destruct (_ >? UINT_VAR_MAX); [apply keeps_refl|].
+  destruct (_ >? MAX_PENDING_CRYPTO); [apply keeps_refl|].
+  destruct (handle_frame (stream_of c e) off d false) as [o r'].
+  assert (K0 : keeps c (set_stream c e r')) by (repeat split; auto).
+  destruct o; try exact K0.
+  pose proof (tls_feed_keeps p e (set_stream c e r') data) as K1.
+  destruct (tls_feed p e (set_stream c e r') data) as [tr c2]. cbn [snd] in K1.
+  destruct tr; cbn [snd]; try (eapply keeps_trans; [exact K0|exact K1]).
+  eapply keeps_trans; [exact K0|]. eapply keeps_trans; [exact K1|apply complete_check_keeps].
+Qed.
+
+Lemma frames_loop_keeps : forall p e fs c, keeps c (snd (frames_loop p e c fs)).
+Proof.
+  intros p e fs. induction fs as [|[off d] fs IH]; intros c; cbn [frames_loop]; [apply keeps_refl|].
+  pose proof (crypto_frame_keeps p e c off d) as K.
+  destruct (crypto_frame p e c off d) as [x c1]. cbn [snd] in K.
+  destruct x; cbn [snd]; [eapply keeps_trans; [exact K|apply IH]|exact K|exact K].
+Qed.
+
+(* a client receiving Handshake packets: packet after packet = all their frames in one packet *)
+Lemma packets_flatten : forall p pkts c c',
+  teq c c' -> q_client c = true -> q_closed c = None -> kget (q_rk c) EP_HANDSHAKE = true ->
+  Forall (fun f : list (Z * list Z) => f <> []) pkts ->
+  let R := frames_loop p EP_HANDSHAKE c' (concat pkts) in
+  let cf := run_conn p c (map (fun f => (PT_HANDSHAKE, f)) pkts) in
+  match fst R with
+  | FOk => q_closed cf = None /\ teq cf (snd R)
+  | FClose code => q_closed cf = Some code /\ teq cf (snd R)
+  | FExn _ => True
+  end.
+Proof.
+  intros p pkts. induction pkts as [|f pkts IH]; intros c c' T Hcl Hclosed Hk Hne R cf.
+  - unfold R, cf. cbn. split; [exact Hclosed|exact T].
+  - inversion Hne as [|? ? Nf Hne']; subst.
+    unfold R, cf. cbn [concat map run_conn]. rewrite frames_loop_app.
+    destruct (frames_loop_teq p EP_HANDSHAKE f c c' T) as [F1 F2].
+    pose proof (frames_loop_keeps p EP_HANDSHAKE f c) as (K1 & K2 & K3).
+    unfold receive_packet. rewrite Hclosed.
+    change (lookup_epoch PT_HANDSHAKE get_epoch_table) with (Some EP_HANDSHAKE). cbv beta iota.
+    rewrite Hk, Hcl. cbn [negb andb].
+    destruct f as [|f0 fr]; [contradiction|].
+    change (negb (zin EP_HANDSHAKE crypto_frame_epochs)) with false. cbv beta iota.
+    destruct (frames_loop p EP_HANDSHAKE c (f0 :: fr)) as [x c1].
+    destruct (frames_loop p EP_HANDSHAKE c' (f0 :: fr)) as [x' c1']. cbn [fst snd] in F1, F2, K1, K2, K3. subst x'.
+    destruct x; cbn [snd fst].
+    + (* processed: next packet *)
+      set (c2 := transmit (set_flags c1 (q_complete c1) (q_hs_ack c1 || (EP_HANDSHAKE =? EP_HANDSHAKE)) (q_hs_out c1))).
+      assert (T2 : teq c2 c1) by (unfold c2, transmit; destruct (_ && _ && _); repeat split).
+      assert (Cl2 : q_client c2 = true) by (unfold c2, transmit; destruct (_ && _ && _); cbn; congruence).
+      assert (Cd2 : q_closed c2 = None) by (unfold c2, transmit; destruct (_ && _ && _); cbn; congruence).
+      assert (Kk2 : kget (q_rk c2) EP_HANDSHAKE = true).
+      { specialize (K3 Hcl Hk). unfold c2, transmit. destruct (_ && _ && _); cbn; exact K3. }
+      exact (IH c2 c1' (teq_trans _ _ _ T2 F2) Cl2 Cd2 Kk2 Hne').
+    + (* closed: the remaining packets are ignored *)
+      assert (Ign : forall l c3, q_closed c3 <> None -> run_conn p c3 l = c3).
+      { induction l as [|[pt fr'] l IHl]; intros c3 N; [reflexivity|]. cbn [run_conn]. unfold receive_packet.
+        destruct (q_closed c3) eqn:Q; [cbn [snd]; apply IHl; rewrite Q; discriminate|contradiction]. }
+      rewrite Ign by (unfold close_with; destruct (_ && _); cbn; discriminate).
+      split; [unfold close_with; destruct (_ && _); reflexivity|].
+      eapply teq_trans; [|exact F2]. unfold close_with. destruct (_ && _); repeat split.
+    + exact I.
+Qed.
+
+Lemma fragmentation_independent_packets_lemma : forall patched cfg0 orcs ops base B pkts,
+  let c := run_conn patched (conn_init true cfg0 orcs) ops in
+  q_closed c = None -> kget (q_rk c) EP_HANDSHAKE = true ->
+  bytes_ok (q_rbuf c) -> stream_of c EP_HANDSHAKE = flat base -> 0 <= base ->
+  bytes_ok B -> B <> [] -> base + Zlen B <= UINT_VAR_MAX -> Zlen B <= MAX_PENDING_CRYPTO ->
+  Forall (fun f : list (Z * list Z) => f <> []) pkts ->
+  Forall (fun f => slice_of B base (fst f) (snd f)) (concat pkts) ->
+  (forall o, base <= o < base + Zlen B -> Exists (covers o) (concat pkts)) ->
+  let W := frames_loop patched EP_HANDSHAKE c [(base, B)] in
+  let cf := run_conn patched c (map (fun f => (PT_HANDSHAKE, f)) pkts) in
+  match fst W with
+  | FOk => q_closed cf = None /\ tlsproj cf = tlsproj (snd W)
+  | FClose code => q_closed cf = Some code /\ tlsproj (forget cf) = tlsproj (forget (snd W))
+  | FExn _ => True
+  end.
+Proof.
+  intros patched cfg0 orcs ops base B pkts c Hclosed Hk Hc Hst Hbase HB NB Hmax Hpend Hne Hsl Hcov.
+  pose proof (qinv_run_conn true cfg0 patched ops _ (qinv_init true cfg0 orcs)) as I. fold c in I.
+  pose proof (fragmentation_independent_lemma patched true cfg0 orcs ops EP_HANDSHAKE base B (concat pkts)
+                Hc Hst Hbase HB NB Hmax Hpend Hsl Hcov) as FI. fold c in FI.
+  pose proof (packets_flatten patched pkts c c (teq_refl c) (qi_cl _ _ _ I) Hclosed Hk Hne) as PF.
+  cbv zeta in PF |- *. unfold fview in FI.
+  remember (frames_loop patched EP_HANDSHAKE c (concat pkts)) as R eqn:ER.
+  remember (frames_loop patched EP_HANDSHAKE c [(base, B)]) as W eqn:EW.
+  destruct R as [r cr]. destruct W as [w cw]. cbn [fst snd] in *.
+  pose proof (f_equal fst FI) as E1. pose proof (f_equal snd FI) as E2. cbn [fst snd] in E1, E2. subst w.
+  destruct r.
+  - destruct PF as [P1 P2]. split; [exact P1|]. rewrite <- E2. exact (proj1 P2).
+  - destruct PF as [P1 P2]. split; [exact P1|]. rewrite <- E2. apply tlsproj_forget. exact (proj1 P2).
+  - exact Logic.I.
 Qed.
